@@ -45,6 +45,10 @@ func NewSparseConstInt8Vector(indices []int, values []int8, n int) SparseConstIn
   if len(indices) != len(values) {
     panic("invalid number of indices")
   }
+  // work on copies: the caller's slices are neither reordered nor shared
+  // with the vector (the Unsafe constructor above is the one that shares)
+  indices = append([]int{}, indices...)
+  values = append([]int8{}, values...)
   sort.Sort(sortIntConstInt8{indices, values})
   r := nilSparseConstInt8Vector(n)
   r.indices = indices[0:0]
